@@ -36,6 +36,8 @@ def solo(desc, prune):
         fs, rs, rew, prob, it1, it2, a1, a2 = sg.solve()
     except ValueError as exc:
         return {"ok": False, "err": str(exc)[:400], "fields": []}
+    except Exception as exc:          # observed, not judged: the batch entry can never equal this
+        return {"ok": False, "err": "<%s> %s" % (type(exc).__name__, str(exc)[:300]), "fields": []}
     entry.update({"n_iterations_reach": it1, "n_iterations_rew": it2, "reachability_strategies": rs,
                   "final_strategies": fs, "rewards": rew, "rew_min_reach": a2, "probabilities": prob,
                   "prob_min_rew": a1})
